@@ -1,7 +1,8 @@
 """C12 — symbolic calldata is a fully general, well-formed ABI encoding.
 
 Obligations: T-abienc (calldata.py -> Gen/GenAbiEnc.v), T-dynparams (sevm.py -> Gen/GenDynParams.v:
-Concretization.process_dyn_params, the concretization given by Path.branch / Path.extend_path),
+Concretization.process_dyn_params, the decision chain of SEVM.calldataload, the concretization given by
+Path.branch / Path.extend_path),
 Props/C12.vo, lint.
 Tie X-C12, on generated (signature, length configuration, concrete argument) cases:
   * model vs implementation: parse_tuple_type result, the chunk structure of mk_calldata's
